@@ -2,6 +2,7 @@ use crate::outcome::PropDef;
 
 pub mod c01;
 pub mod c02;
+pub mod c03;
 pub mod c04;
 pub mod c05;
 pub mod c06;
@@ -22,6 +23,7 @@ pub fn all() -> Vec<&'static PropDef> {
     vec![
         &c01::PROP,
         &c02::PROP,
+        &c03::PROP,
         &c04::PROP,
         &c05::PROP,
         &c06::PROP,
